@@ -887,7 +887,7 @@ fn compile_redeemers(
         .chain(withdrawal_redeemers)
         .collect();
 
-    let mut map = BTreeMap::new();
+    let mut map: BTreeMap<RedeemersKey, RedeemersValue> = BTreeMap::new();
 
     for redeemer in all {
         let key = RedeemersKey {
@@ -899,6 +899,16 @@ fn compile_redeemers(
             ex_units: redeemer.ex_units,
             data: redeemer.data,
         };
+
+        // one slot per item: a second, different redeemer would silently replace the first
+        if let Some(previous) = map.get(&key) {
+            if previous.data != value.data {
+                return Err(Error::ConsistencyError(format!(
+                    "two different redeemers for the same item ({:?} #{})",
+                    key.tag, key.index
+                )));
+            }
+        }
 
         map.insert(key, value);
     }
